@@ -834,12 +834,16 @@ class DocTest:
                 except KeyboardInterrupt:  # nocover
                     raise
                 except Exception:
-                    raise
-                    # self.exc_info = sys.exc_info()
-                    # ex_type, ex_value, tb = self.exc_info
-                    # self.failed_tb_lineno = tb.tb_lineno
-                    # if on_error == 'raise':
-                    #     raise
+                    # Errors found only when the part is compiled (e.g. a
+                    # "return" outside of a function) are failures of this
+                    # doctest, they must not abort the entire run.
+                    self.exc_info = sys.exc_info()
+                    ex_value = self.exc_info[1]
+                    # SyntaxErrors know which line of the part is offending
+                    self.failed_tb_lineno = getattr(ex_value, 'lineno', None) or 1
+                    if on_error == 'raise':
+                        raise
+                    break
                 try:
                     # Execute the doctest code
                     try:
@@ -1321,10 +1325,18 @@ class DocTest:
                                 # raise Exception('foo')
                                 # continue
 
-                        if self._partfilename is not None and self._partfilename in line:
+                        tbparts = line.split(',')
+                        lineno_words = tbparts[-2].split() if len(tbparts) >= 2 else []
+                        # Only regular frame lines ('File "...", line N, in ...')
+                        # are rewritten. The location line of a SyntaxError
+                        # has no trailing ", in ..." part and is kept as is.
+                        is_frame_line = (len(lineno_words) == 2 and
+                                         lineno_words[0] == 'line' and
+                                         lineno_words[1].isdigit())
+
+                        if self._partfilename is not None and self._partfilename in line and is_frame_line:
                             # Intercept the line corresponding to the doctest
-                            tbparts = line.split(',')
-                            tb_lineno = int(tbparts[-2].strip().split()[1])
+                            tb_lineno = int(lineno_words[1])
                             # modify the line number to match the doctest
                             linepart = tbparts[-2].split(' ')
 
